@@ -39,10 +39,14 @@
 (*     and reached through the same relationship ids.                      *)
 (*                                                                         *)
 (* State: a sequence of sheets [name, imgs, charts, oth, raw];             *)
-(*   imgs   sequence of [r1, c1, r2, c2, two, off, nm, dg]: anchor cells   *)
-(*          (1-based; r2 = c2 = 0, two = FALSE for a one-cell anchor), off *)
-(*          = <<colOff, rowOff, colOff2, rowOff2>>, nm = file name of the  *)
-(*          picture, dg = token of its bytes                               *)
+(*   imgs   sequence of [r1, c1, r2, c2, two, off, ext, nm, nk, dg]:       *)
+(*          anchor                                                         *)
+(*          cells (1-based; r2 = c2 = 0, two = FALSE for a one-cell        *)
+(*          anchor), off = <<colOff, rowOff, colOff2, rowOff2>>, ext =     *)
+(*          <<cx, cy>> size of a one-cell anchor in EMU (new_image: the    *)
+(*          picture's pixel size at 9525 EMU per pixel), nm = file name of *)
+(*          the picture, dg = token of its bytes; nk = "hash" | "ext" | "" *)
+(*          classifies nm (only used by known-finding deviations)          *)
 (*   charts sequence of [r1, c1, r2, c2, off, ct, ser, refs, qn, ti, tt]:  *)
 (*          ct = kind, ser = series formulas (sheet names unquoted: how a  *)
 (*          name is quoted is form, judged on the file), refs = the sheet  *)
@@ -115,8 +119,8 @@ AddChartS(S, ch)        == [Touch(S) EXCEPT !.charts = Append(@, ch)]
 RemoveImageS(S, i)      == [Touch(S) EXCEPT !.imgs = RemoveAt(@, i)]
 RemoveChartS(S, i)      == [Touch(S) EXCEPT !.charts = RemoveAt(@, i)]
 (* change_image = new_image at the same from-marker: a one-cell anchor holding the new bytes *)
-ChangeImageS(S, i, nm, dg) ==
-  [Touch(S) EXCEPT !.imgs[i] = [S.imgs[i] EXCEPT !.nm = nm, !.dg = dg, !.r2 = 0, !.c2 = 0, !.two = FALSE,
+ChangeImageS(S, i, nm, nk, dg, ext) ==
+  [Touch(S) EXCEPT !.imgs[i] = [S.imgs[i] EXCEPT !.nm = nm, !.nk = nk, !.dg = dg, !.ext = ext, !.r2 = 0, !.c2 = 0, !.two = FALSE,
                                                  !.off = <<S.imgs[i].off[1], S.imgs[i].off[2], 0, 0>>]]
 MoveImageS(S, i, r, c)  == [Touch(S) EXCEPT !.imgs[i] = [@ EXCEPT !.r1 = r, !.c1 = c]]
 MoveChartS(S, i, g)     == [Touch(S) EXCEPT !.charts[i] = [@ EXCEPT !.r1 = g.r1, !.c1 = g.c1, !.r2 = g.r2, !.c2 = g.c2]]
@@ -173,6 +177,11 @@ RawRefs(W) == \E s \in DOMAIN W : ~W[s].raw /\ \E i \in DOMAIN W[s].charts : \E 
 (* some chart names a sheet that needs quotes although it holds no blank (a raw sheet's chart part is a copy of
    what an earlier save wrote) *)
 QuoteNeeded(W) == \E s \in DOMAIN W : \E i \in DOMAIN W[s].charts : W[s].charts[i].qn > 0
+(* some picture has a file name of kind k; the pictures of materialised sheets with a '#' in their name, as a reader
+   that resolves relationship targets as URI references finds them: unresolved *)
+HasNameKind(W, k) == \E s \in DOMAIN W : \E i \in DOMAIN W[s].imgs : W[s].imgs[i].nk = k
+Unresolved(W) == [s \in DOMAIN W |-> [W[s] EXCEPT !.imgs = [i \in DOMAIN W[s].imgs |->
+                    IF W[s].imgs[i].nk = "hash" THEN [W[s].imgs[i] EXCEPT !.dg = "none"] ELSE W[s].imgs[i]]]]
 (* title deviation: every title becomes its trimmed form *)
 Trimmed(W) == [s \in DOMAIN W |-> [W[s] EXCEPT !.charts = [i \in DOMAIN W[s].charts |->
                                                              [W[s].charts[i] EXCEPT !.ti = W[s].charts[i].tt]]]]
@@ -192,7 +201,7 @@ AddImage(s, im)   == CellOK(im.r1, im.c1) /\ OnSheet(s, AddImageS(sh[s], im), "a
 AddChart(s, ch)   == RectIn(ch) /\ OnSheet(s, AddChartS(sh[s], ch), "addchart")
 RemoveImage(s, i) == i \in DOMAIN sh[s].imgs /\ OnSheet(s, RemoveImageS(sh[s], i), "rmimage")
 RemoveChart(s, i) == i \in DOMAIN sh[s].charts /\ OnSheet(s, RemoveChartS(sh[s], i), "rmchart")
-ChangeImage(s, i, nm, dg) == i \in DOMAIN sh[s].imgs /\ OnSheet(s, ChangeImageS(sh[s], i, nm, dg), "chimage")
+ChangeImage(s, i, nm, nk, dg, ext) == i \in DOMAIN sh[s].imgs /\ OnSheet(s, ChangeImageS(sh[s], i, nm, nk, dg, ext), "chimage")
 MoveImage(s, i, r, c) == i \in DOMAIN sh[s].imgs /\ CellOK(r, c) /\ OnSheet(s, MoveImageS(sh[s], i, r, c), "mvimage")
 MoveChart(s, i, g) == i \in DOMAIN sh[s].charts /\ RectIn(g) /\ OnSheet(s, MoveChartS(sh[s], i, g), "mvchart")
 (* structural edits on a sheet no chart takes its data from (moving the data is the matter of C08); the
